@@ -9,8 +9,8 @@ code; the driver answers `ok` when `applyEvent` accepts the event and `reject <w
 `p view` lines carry the implementation's view of one node after a call; the driver answers `ok`
 when the P state of that node agrees with it and `differs <fields>` otherwise.
 -/
-namespace RaftModel.Driver
-open RaftModel.P
+namespace RaftModel.Driver.PD
+open RaftModel.P RaftModel.Driver
 
 /-- parse `(term kind dig)*` : `n` triples -/
 def takeEntries (n : Nat) (toks : List String) : Option (List LEntry × List String) :=
@@ -167,4 +167,4 @@ def handleP (st : Option PSys) (cmd : List String) : Option PSys × String :=
   | ["end"] => (none, "ok")
   | _ => (none, "bad-op")
 
-end RaftModel.Driver
+end RaftModel.Driver.PD
